@@ -130,4 +130,78 @@ Section Provenance.
       apply (Prov_steps r k _ _ Hst). apply Prov_init. }
     destruct (HP s Hv) as [Hp|H]; [congruence | exact H].
   Qed.
+
+  (* ---------- the partial state of a FAILED step (C11) ---------- *)
+
+  Lemma superstep_err_shape r snap rd e p calls :
+    superstep exec r g snap pv rd = (SErr e p, calls) ->
+    p = snap \/ exists rd' pi, incl rd' rd /\ p = fold_left (app snap pv) rd' (write_decisions exec g snap pv pi snap).
+  Proof.
+    destruct r; simpl; intros H.
+    - apply superstep_sync_partial in H as (pre & n & post & -> & _ & [(ins & _ & ->)|(_ & _ & ->)]); [|left; reflexivity].
+      right. exists pre, pre. split; [|reflexivity]. intros x Hx. apply in_or_app. left. exact Hx.
+    - right. unfold superstep_async in H.
+      exists (isolate rd), (List.filter (fun n => pos_in (n_name n) (map n_name (isolate rd))) rd). split.
+      + unfold isolate. destruct (List.filter is_interrupt rd) as [|i l] eqn:E; [apply incl_refl|].
+        intros x [<-|[]]. assert (Hin : In i (List.filter is_interrupt rd)) by (rewrite E; left; reflexivity).
+        apply filter_In in Hin as [Hin _]. exact Hin.
+      + destruct (first_failure exec g snap pv (isolate rd)) as [[e'|p']|]; try discriminate.
+        injection H as _ <- _. reflexivity.
+  Qed.
+
+  (* every value of a FAILED result was provided or written by a node that COMPLETED an execution *)
+  Theorem failed_state_prov r snap rd e p calls :
+    (forall n, In n rd -> In n (g_nodes g)) -> Prov snap ->
+    superstep exec r g snap pv rd = (SErr e p, calls) -> Prov p.
+  Proof.
+    intros Hrd HP Hs. destruct (superstep_err_shape r snap rd e p calls Hs) as [->|(rd' & pi & Hincl & ->)]; [exact HP|].
+    destruct (write_decisions_same exec g snap pv pi snap) as [Hsd Hex].
+    set (acc := write_decisions exec g snap pv pi snap) in *.
+    intros x Hx. apply fold_app_dom in Hx as [Hx|Hx]; [|right; exact Hx | intros n Hn; apply Hrd, Hincl, Hn].
+    assert (HPacc : Prov acc) by (apply (Prov_same snap acc Hsd); [symmetry; exact Hex | exact HP]).
+    destruct (HPacc x Hx) as [Hp|(n & Hn & Ho & He)]; [left; exact Hp|].
+    right. exists n. repeat split; auto. apply fold_app_execs_mono. exact He.
+  Qed.
+
+  (* an execution record appears only for a node whose executor returned normally *)
+  Lemma app_execs_src snap a n y :
+    execs (app snap pv a n) !! y <> None -> execs a !! y <> None \/ (n_name n = y /\ step_ok exec g snap pv n).
+  Proof.
+    unfold apply_success, step_ok. destruct (run_one exec g snap pv n) as [oi out] eqn:E. simpl.
+    destruct out as [outs dec|e|p]; auto.
+    simpl. rewrite execs_apply_outputs. destruct (Pos.eq_dec (n_name n) y) as [<-|Hne].
+    - intros _. right. split; [reflexivity|]. unfold run_one in E.
+      destruct (collect_inputs g snap pv n (n_inputs n)) as [ins|]; [|injection E as _ E; discriminate].
+      injection E as <- E. exists ins, outs, dec. reflexivity.
+    - rewrite lookup_insert_ne by exact Hne. auto.
+  Qed.
+
+  Lemma fold_app_execs_src snap rd : forall a y,
+    execs (fold_left (app snap pv) rd a) !! y <> None ->
+    execs a !! y <> None \/ exists n, In n rd /\ n_name n = y /\ step_ok exec g snap pv n.
+  Proof.
+    induction rd as [|n rd IH]; intros a y H; simpl in *; [left; exact H|].
+    destruct (IH _ _ H) as [H1|(m & Hm & Hy & Hok)]; [|right; exists m; auto].
+    apply app_execs_src in H1 as [H1|[Hy Hok]]; [left; exact H1 | right; exists n; auto].
+  Qed.
+
+  (* C11: an output name whose only producer is a node that has never completed - in particular the node that just failed
+     on its first execution, and everything that can only be computed through it - is NOT in the FAILED result *)
+  Theorem failed_no_output_of_unfinished r snap rd e p calls x :
+    (forall n, In n rd -> In n (g_nodes g)) -> Prov snap ->
+    superstep exec r g snap pv rd = (SErr e p, calls) ->
+    dmem pv x = false ->
+    (forall m, In m (g_nodes g) -> In x (n_outputs m) -> execs snap !! n_name m = None /\
+        forall m', In m' rd -> n_name m' = n_name m -> ~ step_ok exec g snap pv m') ->
+    vals p !! x = None.
+  Proof.
+    intros Hrd HP Hs Hpv Hprod. destruct (vals p !! x) eqn:Ev; [|reflexivity]. exfalso.
+    assert (Hne : vals p !! x <> None) by congruence.
+    destruct (failed_state_prov r snap rd e p calls Hrd HP Hs x Hne) as [Hp|(m & Hm & Ho & He)]; [congruence|].
+    destruct (Hprod m Hm Ho) as [Hnone Hnok].
+    destruct (superstep_err_shape r snap rd e p calls Hs) as [->|(rd' & pi & Hincl & ->)]; [congruence|].
+    apply fold_app_execs_src in He as [He|(m' & Hm' & Hy & Hok)].
+    - destruct (write_decisions_same exec g snap pv pi snap) as [_ Hex]. rewrite Hex in He. congruence.
+    - apply (Hnok m' (Hincl m' Hm') Hy Hok).
+  Qed.
 End Provenance.
